@@ -7,6 +7,7 @@
 #define EXP_MAX (1 << 20)
 typedef long long R;
 #define LEDGER_OK(x) ((x) == INF || (x) == -INF || (-FIN <= (x) && (x) <= FIN))
+#define FINITE(x) (-FIN <= (x) && (x) <= FIN)
 #define ISINF(x) ((x) == INF || (x) == -INF)
 #define LD(x, e) (ISINF(x) ? (x) : (x) + (e))
 #define EXPS_OK(n, rowexp, colexp, i) (-EXP_MAX <= rowexp[i] && rowexp[i] <= EXP_MAX && -EXP_MAX <= colexp[i] && colexp[i] <= EXP_MAX)
@@ -17,7 +18,9 @@ typedef long long R;
  * upper/lower: +colexp, maxObj: -colexp, rhs/lhs: -rowexp; infinite values are returned unchanged */
 R w_get(int which, R* vec, int* rowexp, int* colexp, int n, int i)
 __CPROVER_requires(ARRS(n) && 0 <= i && i < n && 0 <= which && which <= 4)
-__CPROVER_requires(LEDGER_OK(vec[i]) && EXPS_OK(n, rowexp, colexp, i))
+/* an entry is finite, or infinite on its own side: upper/rhs +inf, lower/lhs -inf; the objective is finite */
+__CPROVER_requires(FINITE(vec[i]) || ((which == 0 || which == 3) && vec[i] == INF) || ((which == 1 || which == 4) && vec[i] == -INF))
+__CPROVER_requires(EXPS_OK(n, rowexp, colexp, i))
 __CPROVER_assigns()
 __CPROVER_ensures(which == 0 ==> __CPROVER_return_value == LD(vec[i], colexp[i]))
 __CPROVER_ensures(which == 1 ==> __CPROVER_return_value == LD(vec[i], colexp[i]))
@@ -33,7 +36,8 @@ void h_get(void) { int which, n, i; R* vec; int* rowexp; int* colexp; w_get(whic
  * lower/upper -colexp, lhs/rhs +rowexp */
 R w_set(int which, R* vec, int* rowexp, int* colexp, int n, int row, int col, R val)
 __CPROVER_requires(ARRS(n) && 0 <= row && row < n && 0 <= col && col < n && 0 <= which && which <= 5)
-__CPROVER_requires(LEDGER_OK(val) && EXPS_OK(n, rowexp, colexp, row) && EXPS_OK(n, rowexp, colexp, col))
+/* the scalar scale* routines apply ldexp unconditionally: their callers must not pass infinite values (checked in the lp_scale unit) */
+__CPROVER_requires(FINITE(val) && EXPS_OK(n, rowexp, colexp, row) && EXPS_OK(n, rowexp, colexp, col))
 __CPROVER_assigns()
 __CPROVER_ensures(which == 0 ==> __CPROVER_return_value == LD(val, colexp[col]))
 __CPROVER_ensures(which == 1 ==> __CPROVER_return_value == LD(val, rowexp[row] + colexp[col]))
@@ -46,10 +50,10 @@ void h_set(void) { int which, n, row, col; R val; R* vec; int* rowexp; int* cole
 #endif
 
 #ifdef INST_roundtrip
-/* getXUnscaled(scaleX(v)) == v for every ledger value v, infinite ones included */
+/* getXUnscaled(scaleX(v)) == v for every finite ledger value v (infinite values never reach scaleX: lp_scale unit) */
 R w_roundtrip(int which, R* vec, int* rowexp, int* colexp, int n, int i, R v)
 __CPROVER_requires(ARRS(n) && 0 <= i && i < n && 0 <= which && which <= 4)
-__CPROVER_requires(LEDGER_OK(v) && EXPS_OK(n, rowexp, colexp, i))
+__CPROVER_requires(FINITE(v) && EXPS_OK(n, rowexp, colexp, i))
 __CPROVER_assigns(__CPROVER_object_whole(vec))
 __CPROVER_ensures(__CPROVER_return_value == v)
 ;
